@@ -152,6 +152,13 @@ CLAIMED = {
         "Accuracy bounds are the advertised ones (1e-3 BVP, 1e-2 IVP), so a gradual loss of accuracy below them is not decided; exact grid centres are excluded (documented u(0)=0 convention); with include_origin=False only points beyond 1 bohr are compared (documented caveat).",
         "DESIGN.md 3/C16",
     ),
+    "C20": (
+        "exploration",
+        "catalogue of 185 call specifications covering the public callables that take arrays / lists / dicts / callbacks (coverage by introspection reported in the evidence) x aliasing patterns (fresh, all arrays write-protected, the same array for two parameters, callbacks returning their own argument, callbacks returning a cached write-protected array) with byte-wise before/after snapshots and a differential result oracle; all ordered pairs of calls inside 22 families sharing their argument objects (936 two-call programs)",
+        "Every catalogued call is executed under every applicable aliasing pattern and every ordered pair of calls in a family is executed on shared argument objects, so in-place updates of inputs, option dictionaries and callback results are decided for the whole catalogue rather than for the temporaries the suite passes.",
+        "Byte-wise snapshots cannot see a mutation that is undone before the call returns; catalogue completeness is by introspection plus hand-written argument factories (uncovered callables are listed in the evidence); file-writing calls (save, generate_cube) are exercised under C13 only.",
+        "DESIGN.md 3/C20",
+    ),
 }
 
 NOT_YET = "check not built yet in this session (work in progress; see DESIGN.md section 8 for the order of work)"
